@@ -1985,7 +1985,9 @@ fn if_verifiable_headers_are_same(lhs: &VerifiableHeader, rhs: &VerifiableHeader
                     .as_ref()
                     .expect("checked: is not none")
                     .as_slice()))
-        && lhs.total_difficulty() == rhs.total_difficulty()
+        // The headers are the same, so comparing the total difficulties of their parents is
+        // enough; `total_difficulty()` adds numbers supplied by the peer and could overflow.
+        && lhs.parent_chain_root().total_difficulty() == rhs.parent_chain_root().total_difficulty()
 }
 
 /// Read-only dump of private bookkeeping for the verification harness
